@@ -356,7 +356,14 @@ def c02_compare(driver, op):
             continue
         fo = srv.workspace.get(sim.real(path))
         if fo is None:
-            violation("C02", "buffer-missing", "open document not held by the server", path)
+            refused = [l for l in S.logs if "Error while parsing file" in l["msg"] and path in l["msg"]]
+            if refused:
+                # the indexer refused the text: that is C03's subject, reported under C03
+                violation("C03", "parse-failure", sim.site_from_traceback_text(refused[-1]["tb"]),
+                          refused[-1]["tb"][-1200:])
+                d["lines"] = None
+            else:
+                violation("C02", "buffer-missing", "open document not held by the server", path)
             continue
         want = model.norm_tabs(d["lines"])
         got = model.norm_tabs(list(fo.contents_split))
@@ -370,6 +377,7 @@ def c02_compare(driver, op):
                 f"{path}: server has {len(got)} lines, client {len(want)}; first difference at "
                 f"line {i}: server={got[i] if i < len(got) else None!r} "
                 f"client={want[i] if i < len(want) else None!r}",
+                coarse="buffer-mismatch",
             )
             d["lines"] = None  # masked from here on: later coordinates are shifted
             continue
@@ -442,10 +450,12 @@ def check_c03(ctx, sched):
                 seen.add(site)
                 if not any(v["prop"] == "C03" and v["site"] == site for v in S.violations):
                     violation("C03", "parse-failure", site, l["tb"][-1200:], op=l["op"])
-    # stale sentinels
-    tag = sched.get("sentinel_tag")
-    if tag:
-        _c03_stale(ctx, sched, tag)
+    for o in d.out:
+        f = o["f"]
+        if is_response(f) and "error" in f and 0 <= o["op"] < len(d.ops):
+            m = d.ops[o["op"]].get("m", {}).get("method", "?")
+            violation("C03", "query-error", f"{m.split('/')[-1]}: {err_site(f)}",
+                      str(strip_tb(f))[:400], op=o["op"])
 
 
 def _c03_site(op):
@@ -455,37 +465,41 @@ def _c03_site(op):
     return None
 
 
-def _c03_stale(ctx, sched, tag):
+def c03_stale_hook(driver):
+    """idle hook: no answer may mention the sentinel of an older version than the one in the
+    text the client holds now (model documents, else files on disk)."""
     import re
 
-    d = ctx["driver"]
-    cur = {}  # path -> current version, derived from the ops in order
+    tag = driver.sched.get("sentinel_tag")
+    if not tag:
+        return
+    start = getattr(driver, "_c03_seen", 0)
+    driver._c03_seen = len(driver.out)
+    new = [o for o in driver.out[start:] if is_response(o["f"]) and "result" in o["f"]]
+    if not new:
+        return
     pat = re.compile(re.escape(tag) + r"_(\w+?)_v(\d+)", re.I)
-    latest = sched.get("sentinel_latest", {})
-    # walk output in order; the schedule records, per op index, the version map in force
-    vmap_by_op = {int(k): v for k, v in sched.get("sentinel_versions", {}).items()}
     cur = {}
-    ops_sorted = sorted(vmap_by_op)
-    for o in d.out:
-        f = o["f"]
-        if not is_response(f) or "result" not in f:
-            continue
-        k = o["op"]
-        # version map in force when op k was handled
-        vm = None
-        for kk in ops_sorted:
-            if kk <= k:
-                vm = vmap_by_op[kk]
-            else:
-                break
-        if vm is None:
-            continue
-        for mt in pat.finditer(json.dumps(f["result"])):
+    texts = []
+    for p, dd in driver.docs.items():
+        if dd["lines"] is not None:
+            texts.append("\n".join(dd["lines"]))
+    for p, data in driver.world.files.items():
+        if p not in driver.docs or driver.docs[p]["lines"] is None:
+            texts.append(data.decode("utf-8", "replace"))
+    for t in texts:
+        for mt in pat.finditer(t):
             fid, ver = mt.group(1).lower(), int(mt.group(2))
-            if fid in vm and ver < vm[fid]:
+            cur[fid] = max(cur.get(fid, 0), ver)
+    for o in new:
+        for mt in pat.finditer(json.dumps(o["f"]["result"])):
+            fid, ver = mt.group(1).lower(), int(mt.group(2))
+            if fid in cur and ver < cur[fid]:
+                k = o["op"]
+                m = driver.ops[k]["m"].get("method") if 0 <= k < len(driver.ops) else "?"
                 violation("C03", "stale-version",
-                          f"symbols of an older version served ({d.ops[k]['m'].get('method')})",
-                          f"file {fid}: answer mentions v{ver}, current is v{vm[fid]} (op {k})", op=k)
+                          f"symbols of an older version served ({m.split('/')[-1]})",
+                          f"file {fid}: answer mentions v{ver}, current is v{cur[fid]} (op {k})", op=k)
                 return
 
 
